@@ -14,5 +14,5 @@ CONSTANTS
   F6Quirk = FALSE
   F7Quirk = FALSE
   PoorShare = 0
-INVARIANTS NoError Conservation NeverBroadcastRevoked SecretsInOrder Mirror RestoreFaithful FwdPkgsComplete
+INVARIANTS NoError Conservation NeverBroadcastRevoked SecretsInOrder Mirror RestoreFaithful FwdPkgsComplete DestAcksExact
 CHECK_DEADLOCK FALSE
